@@ -158,6 +158,7 @@ FLOPS = {
 def seq_corpus(tier):
     """(desc, flop type, flop instance names).  q nets are buffers named q0/q1 driven by the flop."""
     full = tier != "quick"
+    nyield = 0
     for ftype in ("ff", "FDR"):
         F = FLOPS[ftype]
         for nin, nf, G, types, ar in ((1, 1, 2, space.ALL_GATES, 2), (1, 2, 1, space.ALL_GATES, 3), (2, 1, 1, space.ALL_GATES, 3)) + (
@@ -181,6 +182,13 @@ def seq_corpus(tier):
                             conn[F["rst"]] = "rst_net"
                         bbs.append([f"r{j}", ftype, F["ins"], F["outs"], conn])
                     yield {"name": "seq", "nodes": nodes, "bbs": bbs}, ftype, [f"r{j}" for j in range(nf)]
+                    nyield += 1
+                    if nyield % 8 == 0:
+                        # flop INSTANCES called like nets of the circuit (an output gate, an input): legal, the
+                        # registry and the graph are separate name spaces
+                        alias = ["g0", "a"][:nf]
+                        yield ({"name": "seq", "nodes": nodes, "bbs": [[alias[j]] + list(b[1:]) for j, b in enumerate(bbs)]},
+                               ftype, alias)
                     if nf == 2 and not any(f"q{nf - 1}" in fi for _n, _t, fi, _o in nodes) and f"q{nf - 1}" not in [names[x] for x in dsel]:
                         # the last flop's Q pin left unconnected (its q net is used nowhere)
                         bbs2 = [list(x) for x in bbs]
